@@ -852,6 +852,10 @@ Hdupdd(int32  file_id, /* IN: File ID the tag/refs are in */
     if (BADFREC(file_rec))
         HGOTO_ERROR(DFE_ARGS, FAIL);
 
+    /* the descriptor list of a file opened read-only cannot be written back */
+    if (!(file_rec->access & DFACC_WRITE))
+        HGOTO_ERROR(DFE_DENIED, FAIL);
+
     /* Attach to the old DD in the file */
     if ((old_dd = HTPselect(file_rec, old_tag, old_ref)) == FAIL)
         HGOTO_ERROR(DFE_NOMATCH, FAIL);
@@ -1170,6 +1174,10 @@ HDreuse_tagref(int32  file_id, /* IN: id of file */
     if (BADFREC(file_rec) || tag == DFTAG_WILDCARD || ref == DFREF_WILDCARD)
         HGOTO_ERROR(DFE_ARGS, FAIL);
 
+    /* the descriptor list of a file opened read-only cannot be written back */
+    if (!(file_rec->access & DFACC_WRITE))
+        HGOTO_ERROR(DFE_DENIED, FAIL);
+
     /* look for the dd to reuse */
     if ((ddid = HTPselect(file_rec, tag, ref)) == FAIL)
         HGOTO_ERROR(DFE_NOMATCH, FAIL);
@@ -1228,6 +1236,10 @@ Hdeldd(int32 file_id, uint16 tag, uint16 ref)
     file_rec = HAatom_object(file_id);
     if (BADFREC(file_rec) || tag == DFTAG_WILDCARD || ref == DFREF_WILDCARD)
         HGOTO_ERROR(DFE_ARGS, FAIL);
+
+    /* the descriptor list of a file opened read-only cannot be written back */
+    if (!(file_rec->access & DFACC_WRITE))
+        HGOTO_ERROR(DFE_DENIED, FAIL);
 
     /* look for the dd to delete */
     if ((ddid = HTPselect(file_rec, tag, ref)) == FAIL)
